@@ -100,6 +100,33 @@ def generated_code_verbatim(d, o, out):
     return []
 
 
+# rewritten by design (escape dropped, link -> reference link when a matching definition exists, words of a non-atomic token
+# separated by a container prefix) or by a recorded finding
+UNSTABLE_TOKENS = {"2023\\.", "www.example.com/p", "[w](http://x.y/t \"T  w\")", "[t](http://r.ef/x)", "![i2](http://r.ef/x)", "\\# no", "[ref]"}
+
+
+def generated_tokens_present(d, o, out):
+    """every inline construct the generator put into the document occurs in the output as often as in the input, letter for
+    letter up to whitespace runs (judged from the generator's lexicon, not from a parser; typography options off; tokens
+    inside table cells -- where pipes are escaped -- and the few tokens that are rewritten by design are not counted)"""
+    if o.get("smartquotes") or o.get("ellipses") or o.get("cleanups"):
+        return []
+    flat_in, flat_out = re.sub(r"\s+", " ", d), re.sub(r"\s+", " ", out)
+    if "| h1 | h2 |" in flat_in:
+        return []
+    for t in D.INLINE + D.TAGS:
+        if t in UNSTABLE_TOKENS or len(t) < 4:
+            continue
+        ft = re.sub(r"\s+", " ", t)
+        if flat_in.count(ft) != flat_out.count(ft) and not any(ft in u and u != t for u in D.INLINE + D.TAGS if u in d):
+            return [{"clause": "generated_tokens_present", "got": out[:600], "construct": t,
+                     "want": "%d occurrence(s)" % flat_in.count(ft)}]
+    for code in (D.META.get(d) or {}).get("top_info", []):
+        if code and not any(re.match(r"^(`{3,}|~{3,})" + re.escape(code) + r"$", l) for l in out.split("\n")):
+            return [{"clause": "generated_tokens_present", "got": out[:600], "construct": "info string " + code}]
+    return []
+
+
 def atomic_constructs_unbroken(d, o, out):
     """no output line ends inside a construct that the input holds on one line (tags, comments, code spans, links)"""
     bad = []
